@@ -128,6 +128,10 @@ def run(ctx):
                 # a match-valued array: one whole-array literal per branch -> evaluate every alternative on its own
                 if len(ds_) >= 2 and all(st_['rv']['k'] == 'agg' and st_['rv'].get('agg') == 'array' and len(st_['rv']['ops']) == 6 for _, _, st_ in ds_):
                     return ('alts', [[ga._through(ga.operand(o_, (b_, i_)), (b_, i_), 0) for o_ in st_['rv']['ops']] for b_, i_, st_ in ds_])
+                # ... or the array is the value of a match / of inlined helpers: each alternative of its provenance is a 6-byte literal
+                pv_ = [x for x in palts(ga.arg(fb, 0), unwraps=False)]
+                if len(pv_) >= 2 and all(isinstance(x, tuple) and x[0] == 'agg' and x[1] == 'array' and len(x[2]) == 6 for x in pv_):
+                    return ('alts', [list(x[2]) for x in pv_])
                 return [ga._through(ga.read(('index', ('local', a['place']['l']), ('const', i_, None, 'usize')), pt), pt, 0) for i_ in range(6)]
             e = peel(ga.argv(fb, 0), unwraps=False)
             if isinstance(e, tuple) and e[0] == 'agg' and e[1] == 'array' and len(e[2]) == 6:
@@ -370,3 +374,92 @@ def run(ctx):
         for a in alts(rv):
             oks.append(isinstance(a, tuple) and a[0] == 'agg' and a[1] == 'tuple' and len(a[2]) == 2)
         rep.check(r5, all(oks), 'icmpv6::repl:return-shape', 'returns (reply, address) tuples: %s' % all(oks), ic.loc(rb))
+
+    # ---------------- R6: the configuration reaches the stack as given (main)
+    r6 = rep.rule('C02-R6', 'configuration plumbing in main(): the self-IP list and the deny list handed to the stack are the sets parsed from their own command-line options (file and inline form), passed as Some(list) exactly when non-empty; the MAC is the --mac-addr option, else the interface\'s, else the default', floor=5)
+    mn = F.fn('main')
+    rep.saw(mn)
+    names = [fl['name'] for fl in F.adts['Masscanned']['variants'][0]['fields']]
+    aggs = []
+    for bi, b in enumerate(mn.blocks):
+        if b['cleanup']:
+            continue
+        for i, st in enumerate(b['stmts']):
+            if st['rv']['k'] == 'agg' and st['rv'].get('adt', '') == 'Masscanned':
+                aggs.append((bi, i, mn._through(mn.rvalue(st['rv'], (bi, i)), (bi, i), 0)))
+    rep.check(r6, len(aggs) == 1, 'main:one-context', 'Masscanned contexts built in main(): %d' % len(aggs))
+    if len(aggs) == 1:
+        bi0, i0, agg = aggs[0]
+        vals = dict(zip(names, agg[2]))
+
+        def has_key(e, key):
+            return any(isinstance(x, tuple) and x[0] == 'bytes' and bytes.fromhex(x[1]) == key for x in walk(e))
+        for fld, kfile, kinline in [('self_ip_list', b'selfipfile', b'selfiplist'), ('remote_ip_deny_list', b'remoteipdenyfile', b'remoteipdenylist')]:
+            al = palts(vals[fld], unwraps=False)
+            somes = [a for a in al if isinstance(a, tuple) and a[0] == 'agg' and str(a[1]).endswith('Option::Some')]
+            nones = [a for a in al if isinstance(a, tuple) and a[0] == 'agg' and str(a[1]).endswith('Option::None')]
+            ok = len(somes) == 1 and len(nones) == 1 and len(al) == 2
+            det = '%s alternatives: %s' % (fld, [short(a)[:50] for a in al])
+            if ok:
+                lst = somes[0][2][0]
+                parsed = calls_in(lst, r'IpAddrParser>::extract_ip_addresses_only$|extract_ip_addresses_only$')
+                okf = bool(parsed) and has_key(lst, kfile) and not any(has_key(lst, k_) for k_ in (b'selfipfile', b'selfiplist', b'remoteipdenyfile', b'remoteipdenylist') if k_ not in (kfile, kinline))
+                # the inline option extends the same set
+                ext = [b_ for b_, t_ in mn.calls(r'Extend<[^>]*>>::extend$|Extend::extend$|HashSet::<[^>]*>::extend$') if has_key(mn.argv(b_, 1), kinline) and calls_in(mn.argv(b_, 1), r'extract_ip_addresses_only$')]
+                # Some(..) exactly when the set is not empty
+                sb = [b_ for b_, blk in enumerate(mn.blocks) if not blk['cleanup'] for i_, st_ in enumerate(blk['stmts'])
+                      if st_['rv']['k'] == 'agg' and st_['rv'].get('adt') == 'std::option::Option' and 'HashSet' in mn.locals[st_['lhs']['l']]['ty'] and not st_['lhs']['p']
+                      and has_key(mn._through(mn.rvalue(st_['rv'], (b_, i_)), (b_, i_), 0), kfile) and st_['rv'].get('variant') == 'Some']
+                emp_false = bool_edges(mn, lambda d: is_call(peel(d, unwraps=False), r'HashSet::<[^>]*>::is_empty$') and has_key(d, kfile), False)
+                emp_true = bool_edges(mn, lambda d: is_call(peel(d, unwraps=False), r'HashSet::<[^>]*>::is_empty$') and has_key(d, kfile), True)
+                oke = bool(sb) and bool(emp_false) and not mn.must_pass(emp_false, sb) and bool(emp_true) and all(not any(x in mn.reachable(s_) for x in sb) for (_, s_) in emp_true)
+                ok = okf and bool(ext) and oke
+                det = '%s = Some(set parsed from --%s, extended by --%s): %s / %s; Some exactly when the set is not empty: %s' % (fld, kfile.decode(), kinline.decode(), okf, bool(ext), oke)
+            rep.check(r6, ok, 'main:' + fld, det, mn.loc(bi0))
+        mal = palts(vals['mac'], unwraps=True)
+        kinds_ = []
+        for a in mal:
+            if calls_in(a, r'FromStr>::from_str$|FromStr::from_str$|str>::parse$') and has_key(a, b'mac'):
+                kinds_.append('option')
+            elif calls_in(a, r'FromStr>::from_str$|FromStr::from_str$|str>::parse$') and any(isinstance(x, tuple) and x[0] == 'bytes' and re.match(rb'^[0-9a-f:]{17}$', bytes.fromhex(x[1])) for x in walk(a)):
+                kinds_.append('default')
+            elif calls_in(a, r'^get_interface$') and any(isinstance(x, tuple) and x[0] == 'field' and x[2] == 'mac' and calls_in(x[1], r'^get_interface$') for x in walk(a)) and \
+                    not any(isinstance(x, tuple) and x[0] == 'bin' for x in walk(a)):
+                kinds_.append('interface')
+            else:
+                kinds_.append('other:' + short(a)[:40])
+        rep.check(r6, sorted(kinds_) == ['default', 'interface', 'option'], 'main:mac', 'configured MAC alternatives: %s' % sorted(kinds_), mn.loc(bi0))
+        # the reply() call gets this context
+        rc = mn.calls(r'^reply$')
+        okc = len(rc) == 1 and any(isinstance(x, tuple) and x[0] == 'local' for x in walk(mn.arg(rc[0][0], 1)))
+        rep.check(r6, okc, 'main:context-used', 'reply(frame, &masscanned) is called with the context built above: %s' % okc, mn.loc(rc[0][0]) if rc else '')
+    # the two text parsers main() builds the lists with: what parses as an address is stored, as parsed
+    for pid in ['<std::fs::File as utils::parsers::IpAddrParser>::extract_ip_addresses_only', '<&str as utils::parsers::IpAddrParser>::extract_ip_addresses_only']:
+        pf_ = F.fn(pid)
+        rep.saw(pf_)
+        ins_ = [b_ for b_, t_ in pf_.calls(r'HashSet::<[^>]*>::insert$')]
+        okv = bool(ins_)
+        shown = []
+        for b_ in ins_:
+            for a_ in palts(pf_.argv(b_, 1), unwraps=False):
+                shown.append(short(a_)[:60])
+                good = isinstance(a_, tuple) and a_[0] == 'agg' and str(a_[1]) in ('std::net::IpAddr::V4', 'std::net::IpAddr::V6') and len(a_[2]) == 1
+                if good:
+                    x_ = a_[2][0]
+                    good = isinstance(x_, tuple) and x_[0] == 'field' and x_[2] == '0' and isinstance(x_[1], tuple) and x_[1][0] == 'variant' and x_[1][2] == 'Ok' and \
+                        is_call(peel(x_[1][1], unwraps=False), r'str>::parse$|FromStr::from_str$|FromStr>::from_str$')
+                okv = okv and good
+        # the returned set is the one filled
+        rets_ = [a_ for rb_ in pf_.return_blocks() for a_ in palts(pf_.ret_value(rb_), unwraps=False)]
+        okr = any(isinstance(a_, tuple) and a_[0] == 'modby' and a_[1].endswith('::insert') for a_ in rets_)
+        # every successful parse reaches the insert (the optional exclusion list aside)
+        oks = pf_.gate_edges(lambda d, v, vals: isinstance(d, tuple) and d[0] == 'discr' and is_call(peel(d[1], unwraps=False), r'str>::parse$|FromStr::from_str$|FromStr>::from_str$') and v == 0)
+        excl = bool_edges(pf_, lambda d: is_call(peel(d, unwraps=False), r'HashSet::<[^>]*>::contains$'), True)
+        nxt = [b_ for b_, t_ in pf_.calls(r'Iterator>::next$|Iterator::next$')]
+        okc = bool(oks)
+        for (_, s_) in oks:
+            r_ = pf_.reachable(s_, removed_blocks=ins_, removed_edges=excl)
+            if any(x in r_ for x in nxt + pf_.return_blocks()):
+                okc = False
+        rep.check(r6, okv and okr and okc, 'parser:%s' % pid.split(' as ')[0].strip('<'), 'inserted values %s are the parsed addresses unmodified: %s; the filled set is returned: %s; every successful parse is stored: %s' % (shown[:2], okv, okr, okc),
+                  '%s:%d' % (pf_.file, pf_.line))
